@@ -278,6 +278,14 @@ class SimpleExpression(ApplyExpression[Result]):
         self.kwargs = registry.deserialize("builtins.dict", state["kwargs"])
         self._upstreams = [self.args, self.kwargs]
 
+    def is_valid(self) -> bool:
+        # A cached expression is only valid if the values (e.g. Files) and expressions nested in
+        # its arguments are still valid.
+        return all(
+            not isinstance(value, Value) or value.is_valid()
+            for value in iter_nested_value((self.args, self.kwargs))
+        )
+
 
 class SchedulerExpression(TaskExpression[Result]):
     """
@@ -337,6 +345,9 @@ class ValueExpression(Expression[Result]):
         super().__setstate__(state)
         registry = get_type_registry()
         self.value = registry.deserialize(state["value_type"], state["value"])
+
+    def is_valid(self) -> bool:
+        return get_type_registry().is_valid_nested(self.value)
 
 
 class QuotedExpression(Generic[Result]):
